@@ -84,7 +84,8 @@ type fakeReader struct {
 	fail  int   // index of the Read call that fails, -1 = never
 	err   error // the injected failure
 	calls int
-	frag  bool  // arbitrary fragmentation (else: as much as fits)
+	frag  bool  // arbitrary (symbolic) fragmentation
+	chunk int   // >0: at most chunk bytes per Read (concrete fragmentation)
 }
 
 func (f *fakeReader) Read(p []byte) (int, error) {
@@ -102,6 +103,9 @@ func (f *fakeReader) Read(p []byte) (int, error) {
 	n := len(f.data) - f.pos
 	if n > len(p) {
 		n = len(p)
+	}
+	if f.chunk > 0 && n > f.chunk {
+		n = f.chunk
 	}
 	if f.frag {
 		m := verif.Int(1, n)
